@@ -303,6 +303,10 @@ type c12Session struct {
 	kind int
 	// addPath: 0 = best path only, N > 1 = add-path send with up to N paths per prefix
 	addPath int
+	// dual: the neighbour has the other address family configured too, with chains of its own (0 = the same as
+	// the session's family, 1 = accept all, 2 = reject all); a replacement goes to both families
+	dual               bool
+	otherImp, otherExp int
 }
 
 func (s c12Session) peerAddr() kit.Bits {
@@ -335,6 +339,8 @@ type c12Rig struct {
 	peerIP *bnet.IP
 	rib    *locRIB.LocRIB
 	f      *fsmAddressFamily
+	g      *fsmAddressFamily // the other address family of a dual-stack neighbour (nil otherwise)
+	ribO   *locRIB.LocRIB
 	// paths this harness put into the LocRIB on behalf of other sources (an
 	// AdjRIBIn replaces the path of a prefix, it never adds a second one)
 	others map[string]*route.Path
@@ -342,7 +348,22 @@ type c12Rig struct {
 
 // c12NewRig builds a real peer/FSM for the session and brings its address
 // family up exactly as establishedState does (fsmAddressFamily.init()).
+// c12OtherChain: the chain the other family starts with.
+func c12OtherChain(mode int, same filter.Chain) filter.Chain {
+	switch mode {
+	case 1:
+		return filter.NewAcceptAllFilterChain()
+	case 2:
+		return filter.NewDrainFilterChain()
+	}
+	return same
+}
+
 func c12NewRig(s c12Session, imp, exp filter.Chain) *c12Rig {
+	return c12NewRigDual(s, imp, exp, c12OtherChain(s.otherImp, imp), c12OtherChain(s.otherExp, exp))
+}
+
+func c12NewRigDual(s c12Session, imp, exp, oImp, oExp filter.Chain) *c12Rig {
 	v := vrf.NewUntrackedVRF("c12", 0)
 	rib := locRIB.New("c12")
 	dlp := uint32(100)
@@ -380,6 +401,16 @@ func c12NewRig(s c12Session, imp, exp filter.Chain) *c12Rig {
 	} else {
 		p.ipv6 = paf
 	}
+	var ribO *locRIB.LocRIB
+	if s.dual {
+		ribO = locRIB.New("c12other")
+		pafO := &peerAddressFamily{rib: ribO, importFilterChain: oImp, exportFilterChain: oExp, addPathSend: routingtable.ClientOptions{BestOnly: true}}
+		if s.w == 32 {
+			p.ipv6 = pafO
+		} else {
+			p.ipv4 = pafO
+		}
+	}
 	fsm := newFSM(p)
 	fsm.con = c12Conn{}
 	fsm.supports4OctetASN = true
@@ -398,7 +429,46 @@ func c12NewRig(s c12Session, imp, exp filter.Chain) *c12Rig {
 	// The update sender only turns Adj-RIB-Out changes into messages; its ticker
 	// goroutine is not needed (and must not outlive the case).
 	f.updateSender.Destroy()
-	return &c12Rig{sess: s, srv: srv, vrf: v, peerIP: p.addr, rib: rib, f: f, others: map[string]*route.Path{}}
+	r := &c12Rig{sess: s, srv: srv, vrf: v, peerIP: p.addr, rib: rib, f: f, others: map[string]*route.Path{}}
+	if s.dual {
+		g := fsm.ipv6Unicast
+		if s.w == 128 {
+			g = fsm.ipv4Unicast
+		} else {
+			g.multiProtocol = true
+		}
+		g.init()
+		g.updateSender.Destroy()
+		r.g, r.ribO = g, ribO
+		r.loadOther()
+	}
+	return r
+}
+
+// loadOther puts two fixed routes into the other family's tables: one received from the neighbour, one static.
+func (r *c12Rig) loadOther() {
+	var pfxR, pfxS *bnet.Prefix
+	var nh bnet.IP
+	if r.sess.w == 32 { // the other family is IPv6
+		pfxR = bnet.NewPfx(bnet.IPv6(0x20010db800010000, 0), 48).Ptr()
+		pfxS = bnet.NewPfx(bnet.IPv6(0x20010db800020000, 0), 48).Ptr()
+		nh = bnet.IPv6(0x20010db8000000ff, 2)
+	} else {
+		pfxR = bnet.NewPfx(bnet.IPv4FromOctets(10, 99, 0, 0), 16).Ptr()
+		pfxS = bnet.NewPfx(bnet.IPv4FromOctets(10, 98, 0, 0), 16).Ptr()
+		nh = bnet.IPv4FromOctets(192, 0, 2, 2)
+	}
+	path := r.g.newRoutePath(false, c12LTime)
+	path.BGPPath.BGPPathA.NextHop = nh.Ptr()
+	path.BGPPath.BGPPathA.LocalPref = 100
+	asn := uint32(c12RemoteASN)
+	if !r.sess.ebgp() {
+		asn = 64999
+	}
+	path.BGPPath.ASPath = types.NewASPath([]uint32{asn})
+	path.BGPPath.ASPathLen = path.BGPPath.ASPath.Length()
+	r.g.adjRIBIn.AddPath(pfxR, path)
+	r.ribO.AddPath(pfxS, &route.Path{Type: route.StaticPathType, LTime: c12LTime, StaticPath: &route.StaticPath{NextHop: nh.Ptr()}})
 }
 
 // c12Op is one step of the history.
@@ -452,6 +522,11 @@ func (r *c12Rig) apply(op c12Op, pols []filter.Chain) {
 		us := r.f.updateSender
 		go func() { <-us.destroyCh }() // the sender's goroutine was stopped in c12NewRig; dispose() stops it again
 		r.f.dispose()
+		if r.g != nil {
+			usg := r.g.updateSender
+			go func() { <-usg.destroyCh }()
+			r.g.dispose()
+		}
 		if op.pol >= 0 {
 			var err error
 			if op.imp {
@@ -465,6 +540,11 @@ func (r *c12Rig) apply(op c12Op, pols []filter.Chain) {
 		}
 		r.f.init()
 		r.f.updateSender.Destroy()
+		if r.g != nil {
+			r.g.init()
+			r.g.updateSender.Destroy()
+			r.loadOther() // the neighbour announces its routes again
+		}
 	}
 }
 
@@ -549,6 +629,11 @@ func c12GenRecv(t *rapid.T, s c12Session, label string) kit.PolPath {
 func c12GenPlan(t *rapid.T) c12Plan {
 	var pl c12Plan
 	pl.sess = c12Session{w: kit.GenFamily(t), kind: rapid.IntRange(0, 3).Draw(t, "kind"), addPath: rapid.SampledFrom([]int{0, 0, 0, 2, 3}).Draw(t, "addpath")}
+	if rapid.IntRange(0, 2).Draw(t, "dual_stack") == 0 {
+		pl.sess.dual = true
+		pl.sess.otherImp = rapid.IntRange(0, 2).Draw(t, "other_import")
+		pl.sess.otherExp = rapid.IntRange(0, 2).Draw(t, "other_export")
+	}
 	g := kit.NewPolGen(t) // both families in the policies; routes are of the session's family
 	g.NH = []kit.Bits{pl.sess.otherAddr(50), pl.sess.otherAddr(51)}
 	addPol := func(c kit.PolChain, d string) int {
@@ -706,7 +791,7 @@ func c12Check(t *rapid.T, c *kit.Case, rec *kit.Recorder) {
 	for i, m := range pl.mpols {
 		pols[i] = b.chain(m)
 	}
-	c.Logf("session: family=%d kind=%s addpath-send=%d", pl.sess.w, c12KindName[pl.sess.kind], pl.sess.addPath)
+	c.Logf("session: family=%d kind=%s addpath-send=%d dual-stack=%v (other family starts with import mode %d, export mode %d; 0 = same chain, 1 = accept all, 2 = reject all)", pl.sess.w, c12KindName[pl.sess.kind], pl.sess.addPath, pl.sess.dual, pl.sess.otherImp, pl.sess.otherExp)
 	c.ClassIf(pl.sess.addPath > 0, "addpath_send")
 	for i, m := range pl.mpols {
 		c.Logf("policy #%d (%s):\n%v", i, pl.descs[i], m)
@@ -787,7 +872,17 @@ func c12Check(t *rapid.T, c *kit.Case, rec *kit.Recorder) {
 	for _, op := range pl.ops {
 		a.apply(op, pols)
 	}
-	bb := c12NewRig(pl.sess, pols[pl.finImp], pols[pl.finExp])
+	// fresh session with the final policies: a family's chain of a kind is the new one iff that kind was replaced
+	oImp, oExp := c12OtherChain(pl.sess.otherImp, pols[pl.impIdx]), c12OtherChain(pl.sess.otherExp, pols[pl.expIdx])
+	for _, op := range pl.ops {
+		if op.kind == "replace-import" || (op.kind == "bounce" && op.imp) {
+			oImp = pols[pl.finImp]
+		}
+		if op.kind == "replace-export" || (op.kind == "bounce" && !op.imp) {
+			oExp = pols[pl.finExp]
+		}
+	}
+	bb := c12NewRigDual(pl.sess, pols[pl.finImp], pols[pl.finExp], oImp, oExp)
 	for _, op := range pl.ops {
 		if op.kind == "replace-import" || op.kind == "replace-export" {
 			continue
@@ -803,6 +898,16 @@ func c12Check(t *rapid.T, c *kit.Case, rec *kit.Recorder) {
 	c.ClassIf(len(ob) > 0, "adjribout_nonempty")
 	if d := c12Diff(la, lb); d != "" {
 		t.Fatalf("C12/locrib: Loc-RIB after replacing the policies differs from a fresh session with the final policies (import #%d, export #%d)\n%s\ncase:\n%s", pl.finImp, pl.finExp, d, c.String())
+	}
+	if pl.sess.dual {
+		c.Class("dual_stack")
+		c.ClassIf(pl.sess.otherImp != 0 || pl.sess.otherExp != 0, "dual_stack_chains_differ")
+		if d := c12Diff(c12DumpTable(a.ribO.Dump()), c12DumpTable(bb.ribO.Dump())); d != "" {
+			t.Fatalf("C12/locrib-other-family: Loc-RIB of the neighbour's other address family after replacing the policies differs from a fresh session with the final policies\n%s\ncase:\n%s", d, c.String())
+		}
+		if d := c12Diff(c12DumpTable(a.g.adjRIBOut.Dump()), c12DumpTable(bb.g.adjRIBOut.Dump())); d != "" {
+			t.Fatalf("C12/adjribout-other-family: Adj-RIB-Out of the neighbour's other address family after replacing the policies differs from a fresh session with the final policies\n%s\ncase:\n%s", d, c.String())
+		}
 	}
 	if d := c12Diff(oa, ob); d != "" {
 		t.Fatalf("C12/adjribout: Adj-RIB-Out after replacing the policies differs from a fresh session with the final policies (import #%d, export #%d)\n%s\ncase:\n%s", pl.finImp, pl.finExp, d, c.String())
